@@ -85,6 +85,9 @@ type Case struct {
 	// Again (sequential cases): after the calls, the very operation values that carried no client of their own are
 	// submitted once more, through a second Runtime that has its own client: they go out through that one. (r7)
 	Again bool `json:"again,omitempty"`
+	// Schemes: the scheme list handed to client.New ("" = {"http"}; "http,https"; "ws,http,https"): it is the caller's
+	// slice, shared by every call on the Runtime; nobody writes to it. (r9)
+	Schemes string `json:"schemes,omitempty"`
 }
 
 // stockConsumers is what a Runtime fresh from client.New offers, recorded before any case ran.
@@ -376,11 +379,16 @@ func Check(c Case) *kit.Violation {
 	defer func() { http.DefaultTransport = savedDefault }()
 	bareClients := map[int]*http.Client{}
 
+	schemes := []string{"http"}
+	if c.Schemes != "" {
+		schemes = strings.Split(c.Schemes, ",")
+	}
+	schemesBefore := append([]string(nil), schemes...)
 	var rt *client.Runtime
 	if c.RtClient == "client" {
-		rt = client.NewWithClient("example.test", "/", []string{"http"}, &http.Client{Transport: &transport{"runtime-client", e}})
+		rt = client.NewWithClient("example.test", "/", schemes, &http.Client{Transport: &transport{"runtime-client", e}})
 	} else {
-		rt = client.New("example.test", "/", []string{"http"})
+		rt = client.New("example.test", "/", schemes)
 	}
 	rt.Transport = &transport{"runtime-transport", e}
 	rt.Debug = false
@@ -519,6 +527,9 @@ func Check(c Case) *kit.Violation {
 			return kit.Failf("KEPT-RESPONSE call %d of %d: the response object its reader kept now reports status %d %q and token header %q; when it was read it reported %d %q and belongs to token %q\nhistory:\n%s",
 				i, len(c.Calls), code, msg, tokHdr, rec.code, rec.msg, toks[i], e.hist)
 		}
+	}
+	if !reflect.DeepEqual(schemes, schemesBefore) {
+		return kit.Failf("SCHEMES-MODIFIED: the scheme list handed to client.New was %q; after %d Submit calls the caller's slice reads %q\nhistory:\n%s", schemesBefore, len(c.Calls), schemes, e.hist)
 	}
 	if c.Again && !c.Concurrent {
 		rt2 := client.NewWithClient("second.test", "/", []string{"http"}, &http.Client{Transport: &transport{"second-runtime-client", e}})
